@@ -386,12 +386,14 @@ fn replay_one(rec: &Value, main: &Path, out: &mut NdjsonOut, timeout: Duration, 
                 }
             };
             let want = to_map(&s["pos"]);
+            let t0 = Instant::now();
             let (pos, timed_out) = wait_positions(&want, timeout);
+            let ms = t0.elapsed().as_millis() as u64;
             let fv: Value = serde_json::from_str(&format!("{{{fields}}}")).unwrap_or(json!({}));
             out.emit(&json!({"ev":"Step","i":i,"thr":thr,"point":point,"obs":obs(&state),"pos":pos,
                              "ver":fv.get("version").cloned().unwrap_or(json!(-2)),
                              "last":fv.get("last").cloned().unwrap_or(json!("")),
-                             "timeout":timed_out}));
+                             "timeout":timed_out,"ms":ms}));
             if timed_out {
                 aborted = true;
                 break;
